@@ -13,14 +13,18 @@ def run_suite(repo_root, paths, timeout=1500):
     """runs pytest over `paths` (relative to repo_root) with the monitor plugin; returns the plugin's document or
     {"error": text}.  Runs inside a private mount namespace with a private /tmp when that is possible (some spec tests
     use fixed /tmp paths), otherwise directly."""
-    work = tempfile.mkdtemp(prefix="vpsuite_", dir="/var/tmp" if os.path.isdir("/var/tmp") else None)
+    # the monitor's output must be visible outside the private mount namespace: neither below /tmp nor below /var/tmp
+    shm = os.path.isdir("/dev/shm") and os.access("/dev/shm", os.W_OK)
+    work = tempfile.mkdtemp(prefix="vpsuite_", dir="/dev/shm" if shm else ("/var/tmp" if os.path.isdir("/var/tmp") else None))
     out = os.path.join(work, "monitor.json")
     env = dict(os.environ)
     env.update({"PYTHONPATH": VERIF + os.pathsep + repo_root, "PYTHONDONTWRITEBYTECODE": "1", "VPMON_SUITE_OUT": out, "PYTHONHASHSEED": "0"})
     pytest_cmd = [sys.executable, "-m", "pytest", "-q", "-p", "no:cacheprovider", "-p", "vpmon.pytest_monitor", "--timeout=900",
                   "--continue-on-collection-errors"] + list(paths)
     quoted = " ".join("'%s'" % a for a in pytest_cmd)
-    attempts = [["unshare", "-m", "sh", "-c", "mount -t tmpfs tmpfs /tmp && cd '%s' && exec %s" % (repo_root, quoted)], pytest_cmd]
+    # the tests leave scratch directories in /tmp and /var/tmp: both are private tmpfs mounts inside the namespace
+    mounts = "mount -t tmpfs tmpfs /tmp && " + ("mount -t tmpfs tmpfs /var/tmp && " if shm else "")
+    attempts = [["unshare", "-m", "sh", "-c", mounts + "cd '%s' && exec %s" % (repo_root, quoted)], pytest_cmd]
     last = ""
     try:
         for cmd in attempts:
